@@ -93,9 +93,13 @@ def gen(rng, tier):
             yield dict(kind="term", term=gen_term(rng), t=t)
         elif r < 0.75:
             terms = [gen_term(rng, big=True) for _ in range(rng.randint(1, 4))]
+            if rng.random() < 0.2:
+                terms.insert(rng.randint(0, len(terms)), dict(rng.choice(terms)))
             yield dict(kind="evolution", terms=terms, t=t, steps=rng.randint(1, 4))
         else:
             terms = [dict(gen_term(rng, big=True), im=[0, 1]) for _ in range(rng.randint(1, 3))]
+            if rng.random() < 0.35:      # the same term listed twice (e.g. a symmetric splitting): selected by index, not by value
+                terms.insert(rng.randint(0, len(terms)), dict(rng.choice(terms)))
             yield dict(kind="derivative", terms=terms, t=t, steps=rng.randint(1, 3), oseed=rng.randint(0, 10 ** 6))
 
 def run_case(inp):
